@@ -12,3 +12,48 @@ mod tokenize;
 mod utils;
 
 type TokenizerInput<'a> = PositionTracker<MultiPeek<Chars<'a>>>;
+
+/// Verification hooks: read-only views of the tokenizer's tables and token stream.
+#[cfg(feature = "verif")]
+pub mod verif {
+    use super::structs::{FinalToken, IntermediateToken};
+
+    pub fn pattern_table() -> Vec<(&'static str, &'static str, bool)> {
+        IntermediateToken::verif_pattern_table()
+    }
+
+    pub fn take_size() -> usize {
+        IntermediateToken::LONGEST_TOKEN_LEN + 1
+    }
+
+    /// A public mirror of the tokenizer's private token type.
+    #[derive(Debug, Clone, PartialEq, Eq)]
+    pub enum Token {
+        And,
+        Or,
+        Not,
+        True,
+        False,
+        Literal(String),
+        Parentheses(Vec<Token>),
+    }
+
+    fn convert(tokens: &[FinalToken]) -> Vec<Token> {
+        tokens
+            .iter()
+            .map(|token| match token {
+                FinalToken::And => Token::And,
+                FinalToken::Or => Token::Or,
+                FinalToken::Not => Token::Not,
+                FinalToken::ConstantTrue => Token::True,
+                FinalToken::ConstantFalse => Token::False,
+                FinalToken::Literal(name) => Token::Literal(name.clone()),
+                FinalToken::Parentheses(inner) => Token::Parentheses(convert(inner)),
+            })
+            .collect()
+    }
+
+    pub fn tokenize(input: &str) -> Result<Vec<Token>, super::ParseError> {
+        Ok(convert(&super::tokenize(input)?))
+    }
+}
